@@ -22,6 +22,26 @@ Definition grid_lists_Q (d : nat) (n : Z) := make_lists_Q (repeat (gs_step_size_
 Definition sens_lists_F (ns : list Z) := make_lists_F (map sens_step_size_F ns) true.
 Definition sens_lists_Q (ns : list Z) := make_lists_Q (map sens_step_size_Q ns) true.
 
+(* Sensitivity._perturb_models: unit-cube limits (before prior.value_for) of every cell, in job order;
+   dimension i pairs the i-th lattice coordinate with the i-th half step (zip pinned by the translator) *)
+Definition sens_halves_F (ls : float) (ns : list Z) := map (fun n => sens_half_step_F ls (sens_step_size_F n)) ns.
+Definition sens_halves_Q (ls : Q) (ns : list Z) := map (fun n => sens_half_step_Q ls (sens_step_size_Q n)) ns.
+Definition sens_cell_units_F (ls : float) (ns : list Z) : list (list (float * float)) :=
+  map (fun row => map2 (fun c h => (sens_unit_lower_F c h, sens_unit_upper_F c h)) row (sens_halves_F ls ns)) (sens_lists_F ns).
+Definition sens_cell_units_Q (ls : Q) (ns : list Z) : list (list (Q * Q)) :=
+  map (fun row => map2 (fun c h => (sens_unit_lower_Q c h, sens_unit_upper_Q c h)) row (sens_halves_Q ls ns)) (sens_lists_Q ns).
+(* k-th sensitivity cell of one dimension with n steps, in the unit interval *)
+Definition sens_cell1_Q (ls : Q) (n k : Z) : Q * Q :=
+  let s := sens_step_size_Q n in
+  (sens_unit_lower_Q (ml_value_Q s k true) (sens_half_step_Q ls s), sens_unit_upper_Q (ml_value_Q s k true) (sens_half_step_Q ls s)).
+
+(* big-endian base-n digits of a job number: the multi-index of the job in row-major order *)
+Fixpoint digits (n d k : nat) : list nat :=
+  match d with
+  | O => []
+  | S d' => (k / n ^ d')%nat :: digits n d' (k mod n ^ d')%nat
+  end.
+
 (* GridSearch.make_arguments for one grid prior (lo, hi) and one lattice value *)
 Definition cell_F (n : Z) (lohi : float * float) (value : float) : float * float :=
   let w := prior_width_F (fst lohi) (snd lohi) in
@@ -55,6 +75,16 @@ Section Builder.
     map (fun k => rb_lookup (Z.of_nat k) st) (seq 0 total).
   Definition rb_run (total : nat) (arrivals : list (Z * R)) : list (option R) :=
     rb_summaries total (fold_left rb_add arrivals []).
+  (* ResultBuilder.results: zip(sample_summaries, paths); the k-th path is the k-th job's *)
+  Definition rb_results (total : nat) (arrivals : list (Z * R)) : list (option (R * Z)) :=
+    map2 (fun o k => option_map (fun r => (r, Z.of_nat k)) o) (rb_run total arrivals) (seq 0 total).
+  (* what an observer sees after each arrival while the search is running: filled slots *)
+  Definition is_some (o : option R) : bool := match o with Some _ => true | None => false end.
+  Fixpoint rb_progress (total : nat) (st : rb_state) (arrivals : list (Z * R)) : list (list bool) :=
+    match arrivals with
+    | [] => []
+    | a :: rest => map is_some (rb_summaries total (rb_add st a)) :: rb_progress total (rb_add st a) rest
+    end.
 End Builder.
 
 (* Sensitivity.run: `results = sorted(results)` after every arrival; JobResult orders by number *)
@@ -106,7 +136,9 @@ Inductive case :=
 | CCells (n : Z) (priors : list (float * float)) (expected : list (list (float * float)))
 | CResult (pt : list (float * float * float)) (lower : list (list float))
           (shape : list Z) (side : Z) (step : float) (upper centres : list (list float))
-| CBuilder (total : nat) (arrivals : list (Z * Z)) (expected : list (option Z))
+| CBuilder (total : nat) (arrivals : list (Z * Z)) (expected : list (option Z)) (results : list (option (Z * Z)))
+| CProgress (total : nat) (arrivals : list Z) (expected : list (list bool))
+| CSensCells (ls : float) (ns : list Z) (expected : list (list (float * float)))
 | CSensLists (ns : list Z) (expected : list (list float)) (shape : list Z)
 | CSensSorted (arrivals : list Z) (expected : list Z).
 
@@ -125,7 +157,12 @@ Definition check_case (c : case) : bool :=
       && fbits_eqb (gsr_step_size_F (gsr_side_length_F pw ns nd)) step
       && list_eqb flist_eqb (result_upper_F pw ns nd lower) upper
       && list_eqb flist_eqb (result_centres_F pw ns nd lower) centres
-  | CBuilder total arrivals e => list_eqb (opt_eqb Z.eqb) (rb_run total arrivals) e
+  | CBuilder total arrivals e res =>
+      list_eqb (opt_eqb Z.eqb) (rb_run total arrivals) e
+      && list_eqb (opt_eqb (fun a b => Z.eqb (fst a) (fst b) && Z.eqb (snd a) (snd b))) (rb_results total arrivals) res
+  | CProgress total arrivals e =>
+      list_eqb (list_eqb Bool.eqb) (rb_progress total [] (map (fun k => (k, tt)) arrivals)) e
+  | CSensCells ls ns e => list_eqb (list_eqb pair_eqb) (sens_cell_units_F ls ns) e
   | CSensLists ns e shape => list_eqb flist_eqb (sens_lists_F ns) e && list_eqb Z.eqb ns shape
   | CSensSorted arrivals e => list_eqb Z.eqb (map fst (sens_collect (map (fun k => (k, tt)) arrivals))) e
   end.
